@@ -24,6 +24,9 @@ NOTES = {  # what a seed taught (checks strengthened because it was first missed
     "C09-2": "first missed: parentless text targets with offered comment/PI",
     "C09-3": "first missed: root re-assignment before the guarded calls (direct search; the setter is not in the Coq scripts)",
     "C16-3": "first only a broken translator obligation: nesting-depth sweep over three expression shapes added",
+    "C05-5": "a yield under altered_default_filters: the stack discipline is C08's subject (all_balanced no longer proves; dynamic failures)",
+    "C05-6": "a GC-callback change (held appended tail text): C04's subject",
+    "C01-6": "a GC-callback change (held appended tail text): C04's subject; the C01 harness runs with the collector disabled by design",
     "C03-1": "caught as a broken tie; generator bias for preserved nested children that fit the line requested",
 }
 rows = []
@@ -43,7 +46,10 @@ for d in sorted(glob.glob(os.path.join(HERE, "seeded", "C*-*")), key=lambda p: (
         elif b and "translator" in b.group(1):
             how += " (+ translator obligation)"
     elif det:
-        how = "not caught by its own property's check at the time of the run"
+        how = "not caught by its own property's check"
+        for other in sorted(glob.glob(os.path.join(d, "detection_C*.txt"))):
+            if "VIOLATION" in open(other).read():
+                how += "; caught by ./check %s" % os.path.basename(other)[len("detection_"):-4]
     else:
         how = "(not run yet)"
     summary = re.sub(r"\s+", " ", meta.get("summary", ""))[:230]
